@@ -114,6 +114,11 @@ def case(spec):
         cbw.add_block(n_tx=1)
         wide = Tx(1, [TxIn(rbytes(rng, 32), 0, b"", 0xFFFFFFFF)], [TxOut(1 + i, histories.p2pkh_for(b"w%d" % (i % 65538))) for i in range(65560)], 0)
         cbw.add_block(txs=[wide])
+        # more than 2^16 (and 2^17) unspent outputs that belong to a FEW addresses (each owns hundreds of outputs spread over the
+        # whole set), in blocks that stay below 1 MB
+        for part in range(3):
+            cbw.add_block(txs=[Tx(1, [TxIn(rbytes(rng, 32), 0, b"", 0xFFFFFFFF)],
+                                  [TxOut(10**6 + part * 10**5 + i, histories.p2pkh_for(b"few%d" % (i % 211))) for i in range(25000)], 0)])
         cbw.add_block(txs=[Tx(1, [TxIn(wide.txid, i, b"", 0xFFFFFFFF) for i in (0, 255, 256, 65535, 65536, 65559)], [TxOut(5, histories.p2pkh_for(b"w1"))], 0)])
         chain = cbw.chain()
     elif kind == "lanes":
